@@ -23,8 +23,8 @@ static bool segHitsBox(double ax, double ay, double bx, double by, BoundingBox b
     if (fabs(ay - by) < 1e-6) return ay > y0 && ay < y1 && hi > x0 && lo < x1;
     return true;
 }
-struct Cfg { int start; int sizes; bool aca, nearAlign; int aspect; int heap; };
-static string cfg_str(const Cfg &c) { return mcx::fmt("start=%s sizes=%s useACAforLinks=%d do_near_align=%d aspect=%d heap=%d", c.start == 0 ? "circle" : c.start == 1 ? "coincident" : "line", c.sizes ? "mixed" : "30x30", c.aca, c.nearAlign, c.aspect, c.heap); }
+struct Cfg { int start; int sizes; bool aca, nearAlign; int aspect; int heap; int optset = 0; };   // optset: non-default HolaOpts (1 tree growth EAST + non-convex trees, 2 tree placement preferences off, 3 expansion/hub options flipped, 4 padding 0.5 + no ULC-at-origin + other tree routing)
+static string cfg_str(const Cfg &c) { return mcx::fmt("start=%s sizes=%s useACAforLinks=%d do_near_align=%d aspect=%d heap=%d", c.start == 0 ? "circle" : c.start == 1 ? "coincident" : "line", c.sizes ? "mixed" : "30x30", c.aca, c.nearAlign, c.aspect, c.heap) + (c.optset ? mcx::fmt(" optset=%d", c.optset) : std::string()); }
 static string gstr(int n, const EL &es) { string s = mcx::fmt("n=%d edges:", n); for (auto &e : es) s += mcx::fmt(" %d-%d", e.first, e.second); return s; }
 
 static void run_one(int n, const EL &es, const Cfg &c) {
@@ -44,6 +44,10 @@ static void run_one(int n, const EL &es, const Cfg &c) {
         {
         Graph_SP g = buildGraphFromTglf(s); HolaOpts opts; opts.useACAforLinks = c.aca; opts.do_near_align = c.nearAlign;
         opts.preferredAspectRatio = c.aspect == 0 ? AspectRatioClass::LANDSCAPE : c.aspect == 1 ? AspectRatioClass::PORTRAIT : AspectRatioClass::NONE;
+        if (c.optset == 1) { opts.defaultTreeGrowthDir = CardinalDir::EAST; opts.preferredTreeGrowthDir = CardinalDir::EAST; opts.preferConvexTrees = false; }
+        if (c.optset == 2) { opts.treePlacement_favourCardinal = false; opts.treePlacement_favourExternal = false; opts.treePlacement_favourIsolation = false; }
+        if (c.optset == 3) { opts.expansion_doCostlierDimensionFirst = true; opts.expansion_estimateMethod = ExpansionEstimateMethod::SPACE; opts.orthoHubAvoidFlatTriangles = false; }
+        if (c.optset == 4) { opts.nodePaddingScalar = 0.5; opts.putUlcAtOrigin = false; opts.peeledTreeRouting = TreeRoutingType::MONOTONIC; opts.wholeTreeRouting = TreeRoutingType::STRICT; }
         set<pair<int, int>> want; for (auto &e : es) want.insert({min(e.first, e.second), max(e.first, e.second)});
         doHOLA(*g, opts);
         if ((int)g->getNumNodes() != n || g->getNumEdges() != es.size()) why = "node/edge count changed";
@@ -84,6 +88,7 @@ static void run_one(int n, const EL &es, const Cfg &c) {
     if (c.heap) mcx::heap_end();
 #endif
     vector<string> kc; if (c.aspect != 2 && c.sizes) kc.push_back("aspect_rotation_nonsquare");
+    if (c.optset == 4 && (int)es.size() == n - 1) kc.push_back("strict_tree_routing_with_node_padding_half");   // a pure tree laid out with wholeTreeRouting=STRICT and nodePaddingScalar=0.5
     if (c.start == 2 && n >= 5) kc.push_back("collinear_start");   // every node centre initially on one line (degenerate for the stress layout)
     if (!why.empty()) ctx.violation(why, kc, desc, obs);
 }
@@ -139,6 +144,7 @@ int main(int argc, char **argv) {
     phase(2, full, "all"); phase(3, full, "all"); phase(4, full, "all");
     phase(5, links, "link mode x near-align, circle start");
     { vector<Cfg> ct; for (int aca = 0; aca < 2; aca++) for (int as = 0; as < 3; as++) ct.push_back({0, 0, (bool)aca, true, as, 0}); phase_core_trees(T ? 5 : 4, ct);
+      { vector<Cfg> co; for (int o = 1; o <= 4; o++) { Cfg c{0, 0, true, true, 0, 0}; c.optset = o; co.push_back(c); Cfg d{0, 1, false, true, 1, 0}; d.optset = o; if (T) co.push_back(d); } phase_core_trees(T ? 4 : 3, co); phase(4, co, "non-default option sets"); if (T) phase(5, co, "non-default option sets"); }
       vector<Cfg> c2 = {{0, 0, true, true, 0, 0}, {0, 0, false, true, 0, 0}}; phase_leafless_cores(4, 2, ct); phase_leafless_cores(5, 1, c2); if (T) phase_leafless_cores(5, 2, c2); }
     if (T) { phase(5, mid, "starts x sizes x link mode"); phase(6, {{0, 0, true, true, 0, 0}, {0, 0, false, true, 0, 0}}, "link mode, circle start"); phase(6, {{1, 1, true, true, 1, 0}, {2, 1, false, false, 2, 0}}, "coincident/line starts, mixed sizes"); }
     return ctx.finish();
